@@ -119,7 +119,13 @@ func (i *importedString) StrictEquals(other Value) bool {
 			return true
 		}
 	case *importedString:
-		return i.s == otherStr.s
+		if i.s == otherStr.s {
+			return true
+		}
+		// Different bytes may still denote the same string: invalid UTF-8 is replaced by U+FFFD.
+		i.ensureScanned()
+		otherStr.ensureScanned()
+		return i.u != nil && otherStr.u != nil && i.u.equals(otherStr.u)
 	}
 	return false
 }
